@@ -125,6 +125,14 @@ func escape(s string, m map[rune]string) string {
 			v = append(v, `\`+string(c))
 		default:
 			var s string
+			if hexOnly(c) {
+				// \C-\ and \M-\ would swallow a following M-/C- as the
+				// control-meta prefix, and \M- cannot be followed by another
+				// escape: these runes only round-trip as hex escapes.
+				v = append(v, fmt.Sprintf(`\x%02x`, c))
+				continue
+			}
+
 			if IsControl(c) {
 				s += `\C-`
 				c = Decontrol(c)
@@ -138,7 +146,7 @@ func escape(s string, m map[rune]string) string {
 			if unicode.IsPrint(c) {
 				s += string(c)
 			} else {
-				s += fmt.Sprintf(`\x%2x`, c)
+				s += fmt.Sprintf(`\x%02x`, c)
 			}
 
 			v = append(v, s)
@@ -146,6 +154,25 @@ func escape(s string, m map[rune]string) string {
 	}
 
 	return strings.Join(v, "")
+}
+
+// hexOnly returns true when c has no unambiguous \C- or \M- notation.
+func hexOnly(c rune) bool {
+	if c == 0x1c {
+		return true
+	}
+
+	if !IsMeta(c) {
+		return false
+	}
+
+	switch d := Demeta(c); d {
+	case '\\', '"', '\'':
+		// a quote after \M- would end the quoted string in a inputrc file.
+		return true
+	default:
+		return !unicode.IsPrint(d)
+	}
 }
 
 // Encontrol encodes a Control-c code.
